@@ -421,10 +421,11 @@ type inputs struct {
 	n  int
 	g0 *graph.DenseGraph // shared, only read
 	s0 *graph.SparseGraph
+	d  *dawg.Dawg // shared, only read (built from a private copy of W)
 }
 
 func (in *inputs) clone() *inputs {
-	c := &inputs{n: in.n, g0: in.g0, s0: in.s0}
+	c := &inputs{n: in.n, g0: in.g0, s0: in.s0, d: in.d}
 	for _, x := range in.I {
 		c.I = append(c.I, append([]int{}, x...))
 	}
@@ -491,6 +492,19 @@ func newInputs(r *hx.Rng) *inputs {
 	}
 	in.B = [][]byte{[]byte("a.b..")[:r.Range(1, 5)], []byte("aabbc..")[:r.Range(1, 7)], edges, graph.MulticodeEncode(in.g0)}
 	in.W = words(r, r.Range(3, 40), r.Range(2, 3), 5)
+	wcopy := make([][]byte, len(in.W))
+	for i, w := range in.W {
+		wcopy[i] = append([]byte{}, w...)
+	}
+	in.d, _ = dawg.New(wcopy)
+	// 13: a sorted set disjoint from I[7]; 14: the empty set; 15: a sorted set overlapping I[7]
+	disjointSet := append([]int{}, r.Perm(12)[:r.Range(1, 5)]...)
+	for i := range disjointSet {
+		disjointSet[i] += 100
+	}
+	sort.Ints(disjointSet)
+	overlap := append(append([]int{}, sortedSub[:(len(sortedSub)+1)/2]...), 50, 60)
+	in.I = append(in.I, disjointSet, []int{}, overlap)
 	for i := 0; i < n; i++ {
 		in.NB = append(in.NB, sortints.NewSortedInts(in.g0.Neighbours(i)...))
 	}
@@ -668,6 +682,273 @@ func drainMachine(sb *strings.Builder, m func() (string, bool), limit int) {
 		sb.WriteString(s)
 		sb.WriteByte(';')
 	}
+}
+
+// ---------------------------------------------------------------- results are owned by the caller
+
+const ownKinds = 6
+
+func scribbleInts(x []int) []int {
+	for i := range x {
+		x[i] = -99 - i
+	}
+	return append(x, 7, 7, 7, 7)
+}
+
+func scribbleBytes(x []byte) []byte {
+	for i := range x {
+		x[i] = '#'
+	}
+	return append(x, "ZZZZZZZZ"...)
+}
+
+// owned records a result, then overwrites it and appends to it (the caller owns what the
+// library returned); again() recomputes it from the shared inputs afterwards and must give the
+// recorded value.  A difference is reported in-band with the marker OWNERSHIP.
+func ownedInts(sb *strings.Builder, what string, res []int, again func() []int) {
+	before := fmt.Sprint(res)
+	scribbleInts(res)
+	if after := fmt.Sprint(again()); after != before {
+		fmt.Fprintf(sb, "OWNERSHIP: %s gave %s, and after the caller changed that result it gives %s; ", what, before, after)
+	}
+	sb.WriteString(before)
+}
+
+// ownResults: calls on shared read-only inputs whose results the goroutine then changes in
+// place, re-reading the shared inputs and its other, untouched results afterwards.
+func ownResults(kind int, in *inputs, v int) string {
+	var sb strings.Builder
+	n := in.n
+	switch kind {
+	case 0: // set algebra: results are new sets
+		a := sortints.SortedInts(in.I[7])
+		for bi, bs := range [][]int{in.I[13], in.I[14], in.I[15], in.I[7]} {
+			b := sortints.SortedInts(bs)
+			ops := []func() sortints.SortedInts{
+				func() sortints.SortedInts { return sortints.SetMinus(a, b) }, func() sortints.SortedInts { return sortints.SetMinus(b, a) },
+				func() sortints.SortedInts { return sortints.Union(a, b) }, func() sortints.SortedInts { return sortints.Union(b, a) },
+				func() sortints.SortedInts { return sortints.Intersection(a, b) }, func() sortints.SortedInts { return sortints.XOR(a, b) },
+				func() sortints.SortedInts { return sortints.Complement(70, b) }, func() sortints.SortedInts { return sortints.NewSortedInts(a...) },
+			}
+			held := make([]sortints.SortedInts, len(ops))
+			for i, op := range ops {
+				held[i] = op()
+			}
+			want := fmt.Sprint(held)
+			for i := range held { // edit every result in place, in the ways the type offers
+				r := held[i]
+				if len(r) > 0 {
+					r.Remove(r[(v+i)%len(r)])
+				}
+				r.Add(1000+v, -5)
+				if len(r) > 0 {
+					r[0] = -77
+				}
+			}
+			recomputed := make([]sortints.SortedInts, len(ops))
+			for i, op := range ops {
+				recomputed[i] = op()
+			}
+			if got := fmt.Sprint(recomputed); got != want {
+				fmt.Fprintf(&sb, "OWNERSHIP: set operations on a=%v b#%d gave %s, and after the caller edited those results they give %s; ", a, bi, want, got)
+			}
+			fmt.Fprint(&sb, want, a, b)
+		}
+	case 1: // Search results and GobEncode bytes
+		for si := 0; si < 3; si++ {
+			search := func() ([][]byte, []int) {
+				switch si {
+				case 0:
+					return in.d.Search(dawg.NewPatternSearcher(in.B[0], '.'))
+				case 1:
+					return in.d.Search(dawg.NewAnagramSearcher(in.B[1], '.'))
+				}
+				return in.d.Search(&evenLength{})
+			}
+			solns, ids := search()
+			want := fmt.Sprintf("%q %v", solns, ids)
+			// extend and overwrite the solutions one by one; those not yet touched must stay as they were
+			exp := make([]string, len(solns))
+			for i := range solns {
+				exp[i] = string(solns[i])
+			}
+			for i := range solns {
+				if string(solns[i]) != exp[i] {
+					fmt.Fprintf(&sb, "OWNERSHIP: after the caller extended solutions 0..%d of one search in place, solution %d reads %q (it was %q); ", i-1, i, solns[i], exp[i])
+					break
+				}
+				solns[i] = scribbleBytes(solns[i])
+			}
+			scribbleInts(ids)
+			s2, i2 := search()
+			if got := fmt.Sprintf("%q %v", s2, i2); got != want {
+				fmt.Fprintf(&sb, "OWNERSHIP: the search gave %s, and after the caller changed those results it gives %s; ", want, got)
+			}
+			sb.WriteString(want)
+		}
+		enc, _ := in.d.GobEncode()
+		want := fmt.Sprintf("%x", enc)
+		scribbleBytes(enc)
+		if e2, _ := in.d.GobEncode(); fmt.Sprintf("%x", e2) != want {
+			sb.WriteString("OWNERSHIP: GobEncode changed after the caller overwrote an earlier encoding; ")
+		}
+		fmt.Fprint(&sb, want, in.d.NumberOfWords())
+	case 2: // observers of every presentation of the shared graph
+		views := []graph.Graph{in.g0, in.s0, graph.Complement(in.g0), graph.Complement(in.s0), graph.InducedSubgraph(in.g0, identity(n)), graph.InducedSubgraph(in.s0, identity(n)), newUserGraph(in.g0)}
+		for vi, g := range views[:6] {
+			g := g
+			ownedInts(&sb, fmt.Sprintf("Degrees of presentation %d", vi), g.Degrees(), g.Degrees)
+			for u := 0; u < n; u++ {
+				u := u
+				ownedInts(&sb, fmt.Sprintf("Neighbours(%d) of presentation %d", u, vi), g.Neighbours(u), func() []int { return g.Neighbours(u) })
+			}
+			sb.WriteString(observe(g))
+		}
+	case 3: // results of the algorithms
+		g := []graph.Graph{in.g0, in.s0, graph.Complement(in.g0)}[v%3]
+		ownedInts(&sb, "ChromaticNumber colouring", second(graph.ChromaticNumber(g)), func() []int { return second(graph.ChromaticNumber(g)) })
+		ownedInts(&sb, "GreedyColor colouring", second(graph.GreedyColor(g, identity(n))), func() []int { return second(graph.GreedyColor(g, identity(n))) })
+		ownedInts(&sb, "Eccentricity", graph.Eccentricity(g), func() []int { return graph.Eccentricity(g) })
+		ownedInts(&sb, "Degeneracy order", second(graph.Degeneracy(g)), func() []int { return second(graph.Degeneracy(g)) })
+		ownedInts(&sb, "CanonicalIsomorph", graph.CanonicalIsomorph(g), func() []int { return graph.CanonicalIsomorph(g) })
+		ownedInts(&sb, "ConnectedComponent", graph.ConnectedComponent(g, v%n), func() []int { return graph.ConnectedComponent(g, v%n) })
+		ownedInts(&sb, "RandomMaximalClique", graph.RandomMaximalClique(g, int64(v)), func() []int { return graph.RandomMaximalClique(g, int64(v)) })
+		ownedInts(&sb, "PruferEncode", graph.PruferEncode(graph.PruferDecode(in.I[9])), func() []int { return graph.PruferEncode(graph.PruferDecode(in.I[9])) })
+		cc := graph.ConnectedComponents(g)
+		want := fmt.Sprint(cc)
+		for i := range cc {
+			cc[i] = scribbleInts(cc[i])
+		}
+		if got := fmt.Sprint(graph.ConnectedComponents(g)); got != want {
+			fmt.Fprintf(&sb, "OWNERSHIP: ConnectedComponents gave %s, then %s; ", want, got)
+		}
+		p, _, gens := graph.CanonicalIsomorphFull(g, nil)
+		want2 := fmt.Sprint(p, gens)
+		scribbleInts(p)
+		for i := range gens {
+			gens[i] = scribbleInts(gens[i])
+		}
+		p2, _, gens2 := graph.CanonicalIsomorphFull(g, nil)
+		if got := fmt.Sprint(p2, gens2); got != want2 {
+			fmt.Fprintf(&sb, "OWNERSHIP: CanonicalIsomorphFull gave %s, then %s; ", want2, got)
+		}
+		mc := graph.MulticodeEncode(g)
+		want3 := fmt.Sprint(mc)
+		scribbleBytes(mc)
+		fmt.Fprint(&sb, want, want2, want3, fmt.Sprint(graph.MulticodeEncode(g)) == want3, observe(g))
+	case 4: // comb, own disjoint sets, own graphs: results of one object changed, the object asked again
+		ownedInts(&sb, "comb.Unrank", comb.Unrank(100+v, 3), func() []int { return comb.Unrank(100+v, 3) })
+		rows := comb.Coeffs(10 + v%5)
+		want := fmt.Sprint(rows)
+		for i := range rows {
+			rows[i] = scribbleInts(rows[i])
+		}
+		if got := fmt.Sprint(comb.Coeffs(10 + v%5)); got != want {
+			fmt.Fprintf(&sb, "OWNERSHIP: comb.Coeffs gave %s, then %s; ", want, got)
+		}
+		s := disjoint.New(n + 3)
+		for i, x := range in.I[8] {
+			s.Union(x, (x+i)%n)
+		}
+		sets := s.Sets()
+		want2 := fmt.Sprint(sets, s.SmallestRep(), s.Roots())
+		for i := range sets {
+			sets[i] = scribbleInts(sets[i])
+		}
+		scribbleInts(s.SmallestRep())
+		scribbleInts(s.Roots())
+		if got := fmt.Sprint(s.Sets(), s.SmallestRep(), s.Roots()); got != want2 {
+			fmt.Fprintf(&sb, "OWNERSHIP: Sets/SmallestRep/Roots gave %s, then %s; ", want2, got)
+		}
+		fmt.Fprint(&sb, want, want2, fmt.Sprint(ints.Sum(in.I[6])))
+	}
+	return sb.String()
+}
+
+func second(_ int, x []int) []int { return x }
+
+// ownResultsScenario: kinds 0..4: every goroutine calls the library on the SAME shared inputs
+// and changes its results in place (reference: the same alone on private copies of the inputs;
+// afterwards the shared inputs must be unchanged).  Kind 5: the parts of ONE multi-part result
+// (solutions of one Search, the sets of one Sets(), the rows of one Coeffs, the components of
+// one ConnectedComponents) are handed to different goroutines, each of which appends to its
+// parts; every part must still read as a deep copy taken at the start.
+func ownResultsScenario(name string, r *hx.Rng, G int) (jobs, ref []job, post func() string) {
+	kind := 0
+	if i := strings.IndexByte(name, ':'); i >= 0 {
+		kind, _ = strconv.Atoi(name[i+1:])
+	}
+	kind %= ownKinds
+	in := newInputs(r)
+	master := in.clone()
+	post = func() string { return in.diff(master) }
+	if kind < 5 {
+		for k := 0; k < G; k++ {
+			v := k
+			jobs = append(jobs, func() string { return ownResults(kind, in, v) })
+			ref = append(ref, func() string { return ownResults(kind, master.clone(), v) })
+		}
+		return
+	}
+	// one multi-part result split over the goroutines
+	var partsB [][]byte
+	var partsI [][]int
+	switch r.Intn(5) {
+	case 0:
+		partsB, _ = in.d.Search(&evenLength{})
+	case 1:
+		partsB, _ = in.d.Search(dawg.NewPatternSearcher([]byte("....."), '.'))
+	case 2:
+		s := disjoint.New(4 * in.n)
+		for i := 0; i < 3*in.n; i++ {
+			s.Union(r.Intn(4*in.n), r.Intn(4*in.n))
+		}
+		partsI = s.Sets()
+	case 3:
+		partsI = comb.Coeffs(r.Range(6, 20))
+	case 4:
+		partsI = graph.ConnectedComponents(graph.Complement(graph.CompletePartiteGraph(in.I[2]...)))
+	}
+	nparts := len(partsB) + len(partsI)
+	expect := make([]string, nparts)
+	for i := range partsB {
+		expect[i] = fmt.Sprintf("%q", partsB[i])
+	}
+	for i := range partsI {
+		expect[i] = fmt.Sprint(partsI[i])
+	}
+	for k := 0; k < G; k++ {
+		k := k
+		mine := func() string {
+			var sb strings.Builder
+			for i := k; i < nparts; i += G {
+				sb.WriteString(expect[i])
+			}
+			return sb.String()
+		}
+		jobs = append(jobs, func() string {
+			var sb strings.Builder
+			for i := k; i < nparts; i += G {
+				var now string
+				if partsB != nil {
+					now = fmt.Sprintf("%q", partsB[i])
+					ext := append(partsB[i], "ZZZZZZZZZZZZ"...) // extends its own part; the part itself keeps its length
+					_ = ext
+				} else {
+					now = fmt.Sprint(partsI[i])
+					ext := append(partsI[i], 7, 7, 7, 7, 7, 7)
+					_ = ext
+				}
+				if now != expect[i] {
+					fmt.Fprintf(&sb, "OWNERSHIP: part %d of one result reads %s, it was %s before the owners of the other parts extended theirs; ", i, now, expect[i])
+				}
+				sb.WriteString(now)
+			}
+			return sb.String()
+		})
+		ref = append(ref, mine)
+	}
+	return
 }
 
 func sharedInputScenario(name string, r *hx.Rng, G int) (jobs, ref []job, post func() string) {
@@ -876,6 +1157,10 @@ func scenarioFull(name string, r *hx.Rng, G int) (jobs, ref []job, extra func(re
 	}
 	if strings.HasPrefix(name, "nested-callbacks") {
 		jobs, ref = nestedScenario(name, r, G)
+		return
+	}
+	if strings.HasPrefix(name, "own-results") {
+		jobs, ref, post = ownResultsScenario(name, r, G)
 		return
 	}
 	// name:<variant> enumerates provenance x query kind (dawg-shared) or the presentation (graph-shared)
@@ -1551,6 +1836,11 @@ func exec1(line string) hx.Result {
 			res.Buckets = append(res.Buckets, "outcome:not-finished-even-alone")
 			return res
 		}
+		for _, w := range want {
+			if i := strings.Index(w, "OWNERSHIP:"); i >= 0 && diff == "" {
+				diff = fmt.Sprintf("a result returned by the library is not the caller's own: %.400s", w[i:])
+			}
+		}
 		if diff == "" && extra != nil {
 			diff = extra(want)
 		}
@@ -1681,6 +1971,13 @@ func gen(g *hx.Gen) {
 		for i := 0; i < g.Pick(1, 6); i++ {
 			g.Emit(fmt.Sprintf("graph-shared:%d;%d;%d;%d", v, g.Rng.U64()%1000000, []int{2, 3, 4, 8}[g.Rng.Intn(4)], g.Pick(2, 4)))
 		}
+	}
+	// results returned by the library are the caller's own
+	for kind := 0; kind < ownKinds; kind++ {
+		for i := 0; i < g.Pick(2, 12); i++ {
+			g.Emit(fmt.Sprintf("own-results:%d;%d;%d;%d", kind, g.Rng.U64()%1000000, []int{2, 3, 4, 8}[g.Rng.Intn(4)], g.Pick(2, 4)))
+		}
+		g.Emit(fmt.Sprintf("own-results:%d;%d;%d;%d;cold", kind, g.Rng.U64()%1000000, 8, 2))
 	}
 	for kind := 0; kind < nestedKinds; kind++ {
 		for i := 0; i < g.Pick(1, 10); i++ {
